@@ -2074,6 +2074,39 @@ class FuncGraph:
                 return self.mk('binop', ('Sub', b, a.args[1]), e)
             if b.op == 'unop' and b.args[0] == 'USub' and not (a.op == 'unop' and a.args[0] == 'USub'):
                 return self.mk('binop', ('Sub', a, b.args[1]), e)
+        if isinstance(e.op, ast.MatMult):
+            # swapaxes(A, -1, -2) @ B  is the scatter  einsum('...nd,...nD->...dD', A, B);   A @ swapaxes(B, -1, -2)  is  einsum('...dn,...Dn->...dD', A, B)
+            sa, sb = self._last_two_swapped(a), self._last_two_swapped(b)
+            if (sa is None) != (sb is None):
+                if sa is not None:
+                    letters, ops = ['nd', 'nD'], [sa, b]
+                else:
+                    letters, ops = ['dn', 'Dn'], [a, sb]
+                # an operand scaled by one weight per row / column (w[..., None] * y) is a further operand of the contraction
+                extra = []
+                for k_, o_ in enumerate(list(ops)):
+                    if o_.op == 'binop' and o_.args[0] == 'Mult':
+                        for w_, y_ in ((o_.args[1], o_.args[2]), (o_.args[2], o_.args[1])):
+                            if w_.op == 'sub' and w_.args[1].op == 'tuple' and len(w_.args[1].args[0]) == 2 and w_.args[1].args[0][0].op == 'const' \
+                                    and w_.args[1].args[0][0].args[0] is Ellipsis and w_.args[1].args[0][1].op == 'const' and w_.args[1].args[0][1].args[0] is None:
+                                extra.append((letters[k_][0], w_.args[0]))
+                                ops[k_] = y_
+                                break
+                            # w[..., None, :] / np.expand_dims(w, -2): one weight per entry of the LAST axis
+                            wl_ = None
+                            if w_.op == 'sub' and w_.args[1].op == 'tuple' and len(w_.args[1].args[0]) == 3 and w_.args[1].args[0][0].op == 'const' \
+                                    and w_.args[1].args[0][0].args[0] is Ellipsis and w_.args[1].args[0][1].op == 'const' and w_.args[1].args[0][1].args[0] is None \
+                                    and w_.args[1].args[0][2].op == 'slice' and all(z_.op == 'const' and z_.args[0] is None for z_ in w_.args[1].args[0][2].args):
+                                wl_ = w_.args[0]
+                            elif w_.op == 'call' and w_.args[0].op == 'ref' and isinstance(w_.args[0].args[0], Lib) and w_.args[0].args[0].dotted == 'numpy.expand_dims' \
+                                    and len(w_.args[1]) == 2 and not w_.args[2] and w_.args[1][1].op == 'const' and w_.args[1][1].args[0] == -2:
+                                wl_ = w_.args[1][0]
+                            if wl_ is not None:
+                                extra.append((letters[k_][1], wl_))
+                                ops[k_] = y_
+                                break
+                sub_ = ','.join(['...' + l_ for l_, _ in extra] + ['...' + l_ for l_ in letters]) + '->...dD'
+                return self._libcall('numpy.einsum', (const(sub_, e, self.fn),) + tuple(w_ for _, w_ in extra) + tuple(ops), e)
         if isinstance(e.op, ast.Mult):
             # a[..., :, None] * b[..., None, :]  is the outer product einsum('...d,...D->...dD', a, b)
             ka, kb = self._outer_kind_conj(a, e), self._outer_kind_conj(b, e)
@@ -2124,6 +2157,21 @@ class FuncGraph:
         if v.op != 'sub' or not re.fullmatch(r'(E|:+)N', self._index_kinds(v.args[1])):
             return None
         return self._libcall('numpy.einsum', (const('...dD,...D->...d', e, self.fn), m, v.args[0]), e)
+
+    @staticmethod
+    def _last_two_swapped(t):
+        """np.swapaxes(x, -1, -2) / x.swapaxes(-2, -1) / np.moveaxis(x, -1, -2)  ->  x, else None"""
+        if t.op != 'call' or t.args[2]:
+            return None
+        f = t.args[0]
+        def axes(xs):
+            vs = [x.args[0] for x in xs if x.op == 'const' and isinstance(x.args[0], int) and not isinstance(x.args[0], bool)]
+            return set(vs) == {-1, -2} and len(xs) == 2
+        if f.op == 'ref' and isinstance(f.args[0], Lib) and f.args[0].dotted in ('numpy.swapaxes', 'numpy.moveaxis') and len(t.args[1]) == 3 and axes(t.args[1][1:]):
+            return t.args[1][0]
+        if f.op == 'attr' and f.args[1] == 'swapaxes' and f.args[0].op != 'ref' and len(t.args[1]) == 2 and axes(t.args[1]):
+            return f.args[0]
+        return None
 
     def _outer_kind_conj(self, t, e):
         """_outer_kind, also below a conjugation: conj(x[..., None, :]) -> ('row', conj(x))"""
